@@ -154,7 +154,9 @@ class InotifyEmitter(EventEmitter):
                 self.queue_event(DirModifiedEvent(os.path.dirname(src_path)))
                 self.queue_event(DirModifiedEvent(os.path.dirname(dest_path)))
                 if move_from.is_directory and self.watch.is_recursive:
-                    for sub_moved_event in generate_sub_moved_events(src_path, dest_path):
+                    for sub_moved_event in generate_sub_moved_events(
+                        src_path, dest_path, follow_symlink=self.watch.follow_symlink
+                    ):
                         self.queue_event(sub_moved_event)
                 return
 
@@ -171,7 +173,9 @@ class InotifyEmitter(EventEmitter):
                     self.queue_event(cls(src_path))
                 self.queue_event(DirModifiedEvent(os.path.dirname(src_path)))
                 if event.is_directory and self.watch.is_recursive:
-                    for sub_created_event in generate_sub_created_events(src_path):
+                    for sub_created_event in generate_sub_created_events(
+                        src_path, follow_symlink=self.watch.follow_symlink
+                    ):
                         self.queue_event(sub_created_event)
             elif event.is_attrib or event.is_modify:
                 cls = DirModifiedEvent if event.is_directory else FileModifiedEvent
